@@ -138,6 +138,10 @@ JOBS = [
     Job('coeff.index.lemmas', None, ['C19'], lean='lemmas/CoeffIndex.lean', timeout=1800,
         description='Lean lemmas: the slot lies inside a vector of Csize(N, M) entries; the slot function is injective (over the integers; cbmc shows index == slot without overflow)'),
     Job('coeff.Ssize', 'coeff::Ssize', ['C19', 'C13', 'C14'], inline=['coeff::Csize'], sat='cadical', timeout=600, description='number of sine coefficients'),
+    # ---- geocentric (C07)
+    Job('Geocentric.Rotation', 'Geocentric::Rotation', ['C07', 'C13', 'C14'], description='rotation matrix: frame and copied entries'),
+    Job('Geocentric.IntReverse', 'Geocentric::IntReverse', ['C07', 'C13', 'C14'], replace=['Math::atan2d', 'Geocentric::Rotation'], timeout=900, sat='cadical',
+        description='geocentric -> geodetic: ranges of latitude and longitude, frame, optional matrix pointer'),
 ]
 
 
@@ -157,11 +161,22 @@ NOT_BUILT = 'in reach of the technique (DESIGN.md section 5) but its contracts a
 NOT_APPLICABLE = {
     'C02': NUMERIC, 'C03': NUMERIC, 'C06': NUMERIC, 'C11': NUMERIC, 'C15': NUMERIC,
     'C17': NUMERIC + '; NearestNeighbor is a C++ template over user types that neither the C extraction nor the CBMC C++ front end can take',
- 'C07': NOT_BUILT,  'C09': NOT_BUILT,
+   'C09': NOT_BUILT,
        
 }
 
 PROPS = {
+    'C07': dict(
+        level='other',
+        level_text='Only the range / frame clauses of this (numeric) property are decided, by proof: Geocentric::IntReverse returns |lat| <= 90 and lon in [-180,180] (or NaN) '
+                   'for every input in all of its regimes, writes exactly its outputs and the optional matrix (never dereferenced when absent), and writes no member.',
+        level_note='Trusted: as C18; range-only models of sqrt, cbrt, hypot, atan2, cos; ellipsoid invariants assumed from the constructor. Round-trip accuracy, orthonormality, '
+                   'least-magnitude height and LocalCartesian are not decided.',
+        design_ref='DESIGN.md section 5, C07',
+        explanation='Contract-based proof of range and frame clauses only; the numeric core (forward image of the reverse result is the original point to round-off, '
+                    'rigid motion of LocalCartesian) cannot be expressed as a contract that cbmc can discharge: see DESIGN.md sections 1 and 6.',
+        not_decided=['forward(reverse(P)) == P to round-off; reverse(forward) identity within nanometres', 'rotation matrix orthonormal', 'LocalCartesian is a rigid motion', 'height of least magnitude'],
+    ),
     'C19': dict(
         level='other',
         level_text='Only the coefficient ADDRESSING of the harmonic sums is decided, by proof: the slot function of the packed triangular storage is the documented '
